@@ -14,7 +14,7 @@
    A remote sub-task is an ordinary [TAct] child (its start is at l++[i+2]++[1]).
 
    [pm_id] of a message is its index in emission order ([lin_ids] in
-   Proofs/ParserTree.v), as in the Python harness.
+   Proofs/ParserIds.v), as in the Python harness.
 
    The end status of a well-formed action is PSucceeded or PFailed; so that every
    [tree] value denotes a well-formed task, [end_status] reads any other value
